@@ -193,6 +193,14 @@ def run(tier, seed):
         step = 7 if tier == "quick" else 1
         for cut in range(0, len(s), step):
             inputs.append(("truncate", s[:cut]))
+    # inputs whose last byte is one a token could continue after: every prefix of the seeds that ends in such a byte
+    for s in SMALL + srcs[:6]:
+        for cut in range(1, len(s) + 1):
+            if s[cut - 1] in "/\"'.=<>!&|+-0123456789_@" or s[cut - 1].isalpha() and cut % 5 == 0:
+                inputs.append(("open-ended", s[:cut]))
+    for tail in ("/", "//", "x /", "1 /", "a = b /", "\"", "'", "'a", "\"ab", "1.", "1.5", "12L", "1b", "@", "@tr", "x &", "x |", "x <", "x =", "x !", "x -", "- >"):
+        inputs.append(("open-ended", "function main() -> void { }\n" + tail))
+        inputs.append(("open-ended", tail))
     for d in (1, 2, 8, 32, 64):
         for s in nested(d):
             inputs.append(("nested", s))
@@ -227,7 +235,9 @@ def run(tier, seed):
                 jobs.append({"id": jid, "stage": "front", "src": src, "reuse_analyser": True, "timeout_ms": 5000})
         jid = len(jobs)
         meta[jid] = (kind, None)
-        j = {"id": jid, "stage": "front", "reuse_analyser": True, "timeout_ms": 5000}
+        # view_check: the source is first lexed from an exact-size buffer and from the front of larger buffers (the result may not
+        # depend on bytes outside the view)
+        j = {"id": jid, "stage": "front", "reuse_analyser": True, "timeout_ms": 5000, "view_check": True}
         if isinstance(data, bytes):
             j["src_hex"] = binascii.hexlify(data).decode()
         else:
